@@ -171,6 +171,11 @@ let events_str (h : heap) : string =
     | EvFreeNull UserHook -> incr un | EvFreeNull LibcFn -> incr ln) h.h_trace;
   Printf.sprintf "%d.%d.%d.%d.%d.%d.0" !ua !uf !un !la !lf !ln
 
+(* the acceptance function re-runs the list model on the whole history: its cost grows faster than linearly with the length (and with
+   the sizes duplicates reach), so it is evaluated on histories of at most this many calls; longer ones carry no tag (counted as
+   "not evaluated" by their absence) *)
+let accept_max_ops = match Sys.getenv_opt "CJ_ACCEPT_MAX_OPS" with Some v -> int_of_string v | None -> 90
+
 let h_hist (a : string array) : string =
   let cfg = a.(1) in
   if String.contains cfg 'S' then "MODEL-SKIPPED" else
@@ -237,7 +242,7 @@ let h_hist (a : string array) : string =
   (* theorem coverage (a trailing @tag is stripped and counted by tools/check.py, never compared): does this history satisfy the
      boolean hypothesis accepted_rulesD of C06_history_extractedD / C07_balanced_extractedD (histories with cJSON_Duplicate included), i.e. is its whole run — results, heap,
      ledger — a consequence of the theorem?  Only failure-free histories of modelled calls can. *)
-  (if a.(2) = "0" && ops <> [] && List.for_all (fun s -> external_op s = None) ops then
+  (if a.(2) = "0" && ops <> [] && List.length ops <= accept_max_ops && List.for_all (fun s -> external_op s = None) ops then
      match (try Some (List.map parse_op ops) with _ -> None) with
      | Some os -> Buffer.add_string out (if accepted_rulesD os then " @under-theorem:C06_history_extractedD" else " @outside-theorem:C06_history_extractedD")
      | None -> ());
